@@ -49,7 +49,9 @@ Datums == {[v |-> <<a>>, refs |-> R] : a \in AtomVals, R \in RefSets}
 
 NewTid(clk, last) == IF clk * K > last THEN clk * K ELSE last + 1
 \* MappingStorage: newTid(maxKey(transactions)) - the committed history decides, not a counter
-BeginTidAt(clk) == IF IsFile THEN NewTid(clk, lastTs) ELSE NewTid(clk, LastTid(hist))
+\* (mapping: later than the last transaction committed, which a pack may have removed from the history meanwhile)
+BeginTidAt(clk) == IF IsFile THEN NewTid(clk, lastTs)
+                   ELSE NewTid(clk, IF ltid > LastTid(hist) THEN ltid ELSE LastTid(hist))
 
 Init == /\ hist = <<>> /\ txn = NoTxn
         /\ clock = 1
